@@ -74,6 +74,12 @@ func runC18(c *Ctx) {
 	t0 := time.Now()
 	var cases []string
 
+	if os.Getenv("C18_LINT_ONLY") != "" { // for inspecting what the source lints say about a tree
+		for _, t := range runLint(c) {
+			res.BreakTie(t.name, t.detail)
+		}
+		return
+	}
 	if c.Replay != "" {
 		var rp replayFile
 		b, _ := os.ReadFile(c.Replay)
